@@ -1,0 +1,70 @@
+//go:build verif
+
+// Verification hooks (build tag "verif"): schedule points and read-only probes used by the
+// property-based checks in /verif. Compiled out entirely without the tag (see verif_hooks_off.go).
+
+package mqtt
+
+import (
+	"sync/atomic"
+)
+
+// verifSched, when set, is called at every named schedule point with the client being handled.
+var verifSched atomic.Pointer[func(point string, cl *Client)]
+
+// VerifSetSched installs (or, with nil, removes) the schedule-point callback.
+func VerifSetSched(f func(point string, cl *Client)) {
+	if f == nil {
+		verifSched.Store(nil)
+		return
+	}
+	verifSched.Store(&f)
+}
+
+func verifPoint(point string, cl *Client) {
+	if f := verifSched.Load(); f != nil {
+		(*f)(point, cl)
+	}
+}
+
+// VerifHousekeep runs one of the periodic housekeeping functions with an explicit notion of "now".
+func (s *Server) VerifHousekeep(kind string, now int64) {
+	switch kind {
+	case "clients":
+		s.clearExpiredClients(now)
+	case "retained":
+		s.clearExpiredRetainedMessages(now)
+	case "inflight":
+		s.clearExpiredInflights(now)
+	case "wills":
+		s.sendDelayedLWT(now)
+	case "sys":
+		s.publishSysTopics()
+	default:
+		panic("verif: unknown housekeeping kind " + kind)
+	}
+}
+
+// VerifReadStore loads persisted state from the storage hooks exactly as Serve does, without starting listeners or the event loop.
+func (s *Server) VerifReadStore() error { return s.readStore() }
+
+// VerifDelayedWills returns the client ids that currently have a delayed will registered.
+func (s *Server) VerifDelayedWills() []string {
+	ids := []string{}
+	for id := range s.loop.willDelayed.GetAll() {
+		ids = append(ids, id)
+	}
+	return ids
+}
+
+// VerifOutboundPending is the number of packets queued for the client's write loop that it has not finished writing.
+func (cl *Client) VerifOutboundPending() int32 { return atomic.LoadInt32(&cl.State.outboundQty) }
+
+// VerifQuotas returns the flow-control counters of the client's in-flight store.
+func (cl *Client) VerifQuotas() (send, recv, maxSend, maxRecv int32) {
+	i := cl.State.Inflight
+	return atomic.LoadInt32(&i.sendQuota), atomic.LoadInt32(&i.receiveQuota), atomic.LoadInt32(&i.maximumSendQuota), atomic.LoadInt32(&i.maximumReceiveQuota)
+}
+
+// VerifSetPacketID moves the client's packet identifier cursor (used to reach wrap-around cheaply).
+func (cl *Client) VerifSetPacketID(v uint32) { atomic.StoreUint32(&cl.State.packetID, v) }
